@@ -368,7 +368,7 @@ fn run(ctx: &mut Ctx) {
             }
         }
     });
-    let n = ctx.tier.pick(300_000, 20_000_000);
+    let n = ctx.tier.pick(300_000, 100_000_000);
     ctx.cases("random", n, |ctx, _i, rng| {
         let mut t = Trg::simple(rng.next() as u32, rng.next() as u32 >> rng.below(32));
         let o = t.output;
